@@ -42,6 +42,8 @@ LEVEL_NOTE = (
     "mov_transfer); classical instruction semantics is abstract (locality/frame hypotheses of Sem). QStatic "
     "excludes Q registers written by non-set instructions (F10, open); it includes the SDK's multi-pair EPR "
     "`set R4 0; mov R4 R3`.")
+# check.py's generic alt-config pass (thorough tier) is switched off: the hardware flag is part of this property's own configuration space (both settings are exercised explicitly per call by harness/transpile.py), so the generic pass is redundant and its default would contradict the per-call settings
+ALT_CONFIG = False
 TECHNIQUE = ("Lean 4 proof (induction over the instruction list, relational Steps simulation) + generated data "
              "re-decided by the kernel + syntactic differential correspondence + state-vector oracle")
 TRUSTED = [
